@@ -83,12 +83,16 @@ def mk(qualname, ensures=(), dispatches=False, phase_owner=False, has_awaits=Fal
 
 
 CLOSED = f"{S} is CS.CLOSED"
+LATE_CLOSE = ("I2-closed-released", "I4-timers-only-while-handshaken")
 
 
 def cleanup_contract():
     W = "enum_of(old(set_val(self._read_exception_futures)))"
     return mk(
         "_cleanup",
+        # called from the connect phases' error handlers, where a close during the phase's last await may have left a timer armed on a closed
+        # connection (the very state _cleanup repairs): its contract is proved without these two clauses of Inv
+        inv_relaxed=LATE_CLOSE,
         ghost_params={"k": "int"},
         ensures=[
             P("C05", "closed", CLOSED),
@@ -629,7 +633,7 @@ CANCEL = {"CancelledError": {"kind": "auxiliary"}}
 
 def set_state_contract():
     c = mk(
-        "_set_connection_state", params={"state": f"enum[{cm.ST}]"},
+        "_set_connection_state", params={"state": f"enum[{cm.ST}]"}, inv_relaxed=LATE_CLOSE,
         ensures=[P("C05", "state-and-flags-set-together", f"{S} is state and self.is_connected == (state is CS.CONNECTED) and "
                                                           "self._handshake_complete == (state is CS.HANDSHAKE_COMPLETE or state is CS.CONNECTED)"),
                  P("C05", "never-leaves-closed", f"implies(old({S}) is CS.CLOSED, state is CS.CLOSED)")],
